@@ -181,8 +181,9 @@ def h_wmedian(ctx, n, equal=False, nan_at=None, zero_w=False):
         wd.insert(nan_at, 1.0)
     m = D.weighted_median(arr(data), arr(wd))
     if equal or n <= 3:
-        # (with four free weights some paths live inside the implementation's 2.2e-16 tie
-        # tolerance, where no float64 assignment follows the same path: claims only)
+        # (with four free weights some paths need a cumulative weight exactly equal to half the
+        # total; float64 sums miss such ties by an ulp and pick the neighbouring -- equally valid --
+        # median, e.g. across a zero-weight value: claims only, no value comparison)
         ctx.observe("m", m)
     half = Sum(ws) / 2
     below = Sum([If(x < m, w, 0) for x, w in zip(xs, ws)])
